@@ -18,7 +18,7 @@ From Coq Require Import List Arith Bool.
 Require Import TT.Model.Str TT.Model.TypeParse TT.Spec.TsLex TT.Spec.TsModule TT.Spec.TsObs.
 Require Import TT.Spec.C10Shape TT.Model.C10Zod TT.Spec.C10Check TT.Proofs.C10Proofs TT.Proofs.C10Items.
 Require Import TT.Proofs.C10ParseTy TT.Proofs.C10LexTy TT.Proofs.C10Oracle TT.Proofs.C10ParseEx TT.Proofs.C10LexEx TT.Proofs.C10Depth.
-Require Import TT.Model.C10ZodText TT.Proofs.C10LexVisit TT.Proofs.C10MemberText TT.Proofs.C10Modules TT.Proofs.C10ObjectText.
+Require Import TT.Model.C10ZodText TT.Proofs.C10LexVisit TT.Proofs.C10MemberText TT.Proofs.C10Modules TT.Proofs.C10ObjectText TT.Proofs.C10Eqb.
 Import ListNotations.
 
 (* ---- per key: the shape of the schema agrees with the shape of the declaration ---- *)
@@ -239,6 +239,18 @@ Theorem C10_denotation_sweep :
   List.length (enum_types 2) = 637.
 Proof. exact denotation_sweep. Qed.
 
+(* ---- the sweep for ALL types: the run-time denotation test [den_ok] (all four printed texts read back as
+   the model trees, compared with the reflected equality tests ty_eqb / ex_eqb) succeeds on every in-domain
+   type of TypeStructure depth below 30 ---- *)
+Theorem C10_denotation_all : forall (m : mapping) (t : tstruct),
+  map_ok m = true -> dom t = true -> tsdepth t < 30 -> den_ok m t = true.
+Proof. exact den_ok_all. Qed.
+(* the equality tests of the correspondence check are exact on the printed s-expressions *)
+Theorem C10_eqb_exact : forall (a b : ty) (e f : ex) (i j : item),
+  (ty_eqb a b = true <-> sx_ty a = sx_ty b) /\ (ex_eqb e f = true <-> sx_ex e = sx_ex f) /\
+  (item_eqb i j = true <-> sx_item i = sx_item j).
+Proof. intros a b e f i j. split; [apply ty_eqb_iff|split; [apply ex_eqb_iff|apply item_eqb_iff]]. Qed.
+
 (* ---- module level: the oracle finds nothing on the model's two modules (the former
    C10_modules_full_statement, which was false as stated: see C10_modules_premises_needed) ----
    [proj_ok p]: primitive mapping targets; every struct field and value parameter outside every class
@@ -251,6 +263,12 @@ Proof. exact denotation_sweep. Qed.
 Theorem C10_modules : forall p : proj,
   proj_ok p -> v_tags (compare_modules (plain_items p) (zod_items p)) = [].
 Proof. exact modules_clean. Qed.
+(* ... and the whole verdict is empty: no per-item detail, no per-key finding *)
+Theorem C10_modules_verdict : forall p : proj, proj_ok p ->
+  v_tags (compare_modules (plain_items p) (zod_items p)) = [] /\
+  v_detail (compare_modules (plain_items p) (zod_items p)) = [] /\
+  v_keys (compare_modules (plain_items p) (zod_items p)) = [].
+Proof. exact modules_verdict_clean. Qed.
 (* each premise that the former statement lacked is needed: an enum without variants (z.enum([]) against
    the empty union), an optional flag on a type that is not Option, two fields with one key *)
 Theorem C10_modules_premises_needed :
@@ -343,5 +361,8 @@ Print Assumptions C10_keys.
 Print Assumptions C10_keys_params.
 Print Assumptions C10_interface_renderers_equal.
 Print Assumptions C10_denotation_sweep.
+Print Assumptions C10_denotation_all.
+Print Assumptions C10_eqb_exact.
 Print Assumptions C10_modules.
+Print Assumptions C10_modules_verdict.
 Print Assumptions C10_modules_premises_needed.
